@@ -343,7 +343,8 @@ def flagged_fields(schema):
 
 
 EXT_KINDS = ("object-field", "enum-value", "input-field", "union-member",
-             "new-type", "interface-field-all")
+             "new-type", "interface-field-all", "documented-field",
+             "new-implementation", "directive-definition")
 
 
 def gen_extension(st, schema, counter):
@@ -358,6 +359,30 @@ def gen_extension(st, schema, counter):
         t = objs[st.below(len(objs), "ext_t")]
         return kind, "extend type %s {\n  ext_%d(a_n: Int = 1): Int\n}" % (
             t, k)
+    if kind == "documented-field" and objs:
+        t = objs[st.below(len(objs), "ext_t")]
+        return kind, (
+            'extend type %s {\n  """added by extension %d"""\n'
+            '  ext_%d(a_s: String = "x"): String @deprecated(reason: "ext")'
+            '\n}' % (t, k, k))
+    if kind == "new-implementation":
+        ifs = sorted(n for n, t in schema.types.items()
+                     if isinstance(t, InterfaceType))
+        if ifs:
+            i = ifs[st.below(len(ifs), "ext_t")]
+            fields = "\n".join(
+                "  %s: %s" % (f.name, _struct.type_str(f.type))
+                for f in schema.types[i].fields if not f.arguments)
+            if fields and all(not f.arguments
+                              for f in schema.types[i].fields):
+                q = schema.query_type.name
+                return kind, (
+                    "type ExtImpl%d implements %s {\n%s\n}\n\n"
+                    "extend type %s {\n  ext_impl_%d: ExtImpl%d\n}"
+                    % (k, i, fields, q, k, k))
+    if kind == "directive-definition":
+        return kind, "directive @ext_%d(n: Int = %d) on FIELD_DEFINITION" % (
+            k, k)
     if kind == "enum-value":
         enums = sorted(n for n, t in schema.types.items()
                        if hasattr(t, "values") and not n.startswith("__")
